@@ -294,6 +294,44 @@ package trie
 
 //@ predicate wf_query(st *SlimTrie) = st.inner != nil && (st.inner.NodeTypeBM != nil ==> wf_core(st) && wf_tree(st) && wf_iprefix(st) && wf_lprefix(st))
 
+// ---------------------------------------------------------------------------
+// walk: the abstract descent — what a well-formed SlimTrie answers for a key, written over the layout spec functions
+// only (no query-session state). GetID and the exact-match result of searchID are both PROVED equal to walk(st, key, 0, 0)
+// for every wf(st) and every key; C10's agreement clause (Get, GetID and Search's exact match agree) follows, see
+// lemmaGetIDSearchAgree. walk is an uninterpreted function with the tail-recursive defining equation walk_def (a
+// tail-recursive equation always has a model, so the axiom cannot introduce an inconsistency).
+//@ define W_k(st *SlimTrie, t int) = rank1(st.inner.InnerPrefixes.PresenceBM.Words, t)
+//@ define W_hasip(st *SlimTrie, t int) = has_step(st, t) && st.inner.InnerPrefixes.PositionBM != nil
+//@ define W_ipb(st *SlimTrie, t int) = st.inner.InnerPrefixes.Bytes[select1(st.inner.InnerPrefixes.PositionBM.Words, W_k(st, t)) : select1(st.inner.InnerPrefixes.PositionBM.Words, W_k(st, t) + 1)]
+//@ define W_step(st *SlimTrie, t int) = ite(!has_step(st, t), 0, ite(st.inner.InnerPrefixes.PositionBM == nil, decstep(st.inner.InnerPrefixes.Bytes, 2*W_k(st, t)), bitstr_len(W_ipb(st, t))))
+//@ define W_i1(st *SlimTrie, t int, i int) = ite(W_hasip(st, t), i - i%8 + W_step(st, t), i + W_step(st, t))
+//@ define W_wsz(st *SlimTrie, t int) = ite(t < nB(st), 8, 4)
+//@ define W_lbl(st *SlimTrie, key string, t int, i1 int) = labelidx(key, 8*len(key), W_wsz(st, t), i1)
+//@ define W_has(st *SlimTrie, key string, t int, i1 int) = ite(is_short(st, t), bitof(shortbm(st, t), W_lbl(st, key, t, i1)), bitat(INW(st), from_of(st, t) + W_lbl(st, key, t, i1)))
+//@ define W_lch(st *SlimTrie, key string, t int, i1 int) = ite(is_short(st, t), rank1(INW(st), from_of(st, t)) + popcnt64(shortbm(st, t) & mask(W_lbl(st, key, t, i1))), rank1(INW(st), from_of(st, t) + W_lbl(st, key, t, i1)))
+// the stored tail of leaf ordinal lf equals the rest of the key from bit i (a leaf without a stored tail matches only the exhausted key)
+//@ define W_tailok(st *SlimTrie, key string, lf int, i int) = st.inner.LeafPrefixes == nil || ite(has_tail(st, lf),
+//@     len(key) - i/8 == tail_hi(st, lf) - tail_lo(st, lf) && forall(j, 0, tail_hi(st, lf) - tail_lo(st, lf), key[i/8 + j] == st.inner.LeafPrefixes.Bytes[tail_lo(st, lf) + j]),
+//@     len(key) == i/8)
+//@ spec cmpupto(a string, b []byte) int
+//@ spec walk(st *SlimTrie, key string, id int, i int) int
+//@ lemma walk_def(st *SlimTrie, key string, id int, i int)
+//@   ensures walk(st, key, id, i) == ite(bitat(NTW(st), id) == 0,
+//@       ite(i <= 8*len(key) && W_tailok(st, key, leaf_ord(st, id), i), id, -1),
+//@       ite(W_hasip(st, rank1(NTW(st), id)) && cmpupto(key[i/8:], W_ipb(st, rank1(NTW(st), id))) != 0, -1,
+//@       ite(W_i1(st, rank1(NTW(st), id), i) > 8*len(key), -1,
+//@       ite(W_has(st, key, rank1(NTW(st), id), W_i1(st, rank1(NTW(st), id), i)) == 0, -1,
+//@       ite(W_i1(st, rank1(NTW(st), id), i) == 8*len(key), W_lch(st, key, rank1(NTW(st), id), W_i1(st, rank1(NTW(st), id), i)) + 1,
+//@           walk(st, key, W_lch(st, key, rank1(NTW(st), id), W_i1(st, rank1(NTW(st), id), i)) + 1, W_i1(st, rank1(NTW(st), id), i) + W_wsz(st, rank1(NTW(st), id))))))))
+//@   proof definition
+
+//@ func strCmpUpto
+//@   property C01 C03 C10
+//@   requires len(b) >= 1
+//@   ensures -1 <= result && result <= 1
+//@   ensures result == 0 ==> len(a) >= len(b) - 1
+//@   defines result == cmpupto(a, b)
+
 //@ spec getid(st *SlimTrie, key string) int32
 
 //@ func (*SlimTrie).GetID
@@ -558,15 +596,135 @@ func lemmaTypedGettersAgreeOnFound(st *SlimTrie, key string) (bool, bool, bool, 
 //@   opt kinds=post
 //@   ensures result != nil && result.option == opt && fresh(result)
 
+// bitmap wrappers: the rank / select index built over the words is the one the query side relies on (wf_r64 / wf_r128 / wf_sel)
+//@ func (*Bitmap).indexit
+//@   property C08
+//@   requires b != nil && len(b.Words) <= 16777216 && len(opts) == 1
+//@   panics opts[0] != "r64" && opts[0] != "r128" && opts[0] != "s32"
+//@   modifies b.RankIndex, b.SelectIndex
+//@   loop 1 invariant -1 <= rangeidx && rangeidx <= 0
+//@   loop 1 invariant rangeidx == 0 && opts[0] == "r64" ==> idx_r64(b.Words, b.RankIndex)
+//@   loop 1 invariant rangeidx == 0 && opts[0] == "r128" ==> idx_r128(b.Words, b.RankIndex)
+//@   loop 1 invariant rangeidx == 0 && opts[0] == "s32" ==> sel_indexed(b.Words, b.SelectIndex, b.RankIndex)
+//@   ensures opts[0] == "r64" ==> idx_r64(b.Words, b.RankIndex)
+//@   ensures opts[0] == "r128" ==> idx_r128(b.Words, b.RankIndex)
+//@   ensures opts[0] == "s32" ==> sel_indexed(b.Words, b.SelectIndex, b.RankIndex)
+
+//@ define bmbits(ix []int32, capa int32) = ite(len(ix) > 0 && capa < ix[len(ix)-1] + 1, int(ix[len(ix)-1]) + 1, int(capa))
+//@ predicate bm_positions(ix []int32) = len(ix) <= 1073741824 && (len(ix) > 0 ==> ix[len(ix)-1] < 1073741824)
+//@     && forall(k, 0, len(ix), 0 <= ix[k] && ix[0] <= ix[k] && ix[k] <= ix[len(ix)-1])
+//@ func newBM
+//@   property C08
+//@   requires len(opts) == 1 && (opts[0] == "r64" || opts[0] == "r128" || opts[0] == "s32")
+//@   requires 0 <= capa && capa <= 1073741824 && bm_positions(indexes)
+//@   ensures result != nil && fresh(result) && fresh(result.Words) && len(result.Words) == (bmbits(indexes, capa) + 63)/64
+//@   ensures opts[0] == "r64" ==> idx_r64(result.Words, result.RankIndex)
+//@   ensures opts[0] == "r128" ==> idx_r128(result.Words, result.RankIndex)
+//@   ensures opts[0] == "s32" ==> sel_indexed(result.Words, result.SelectIndex, result.RankIndex)
+//@   ensures len(indexes) > 0 ==> forall(p, 0, int(indexes[0]), bitat(result.Words, p) == 0)
+//@   ensures len(indexes) == 0 ==> forall(p, 0, 64*len(result.Words), bitat(result.Words, p) == 0)
+
+// wf_shape(ns): the key-independent part of wf(st) — proved for every Slim the builder returns (build, newSlim) and,
+// by the ghost lemma lemmaShapeIsPartOfWf below, implied by wf_core && wf_iprefix && wf_lprefix (so it is a genuine part
+// of the interface invariant and not a separate, weaker notion).
+//@ predicate wf_shape(ns *Slim) = ns != nil && 0 <= ns.ShortSize && ns.ShortSize <= 10 && len(ns.ShortTable) == pow2(int(ns.ShortSize))
+//@     && (ns.NodeTypeBM != nil ==> idx_r64(ns.NodeTypeBM.Words, ns.NodeTypeBM.RankIndex))
+//@     && ns.ShortBM != nil && idx_r64(ns.ShortBM.Words, ns.ShortBM.RankIndex)
+//@     && ns.Inners != nil && idx_r128(ns.Inners.Words, ns.Inners.RankIndex)
+//@     && forall(t, 0, int(ns.BigInnerCnt), t < 64*len(ns.ShortBM.Words) ==> bitat(ns.ShortBM.Words, t) == 0)
+//@     && ns.InnerPrefixes != nil
+//@     && (ns.InnerPrefixes.EltCnt > 0 ==> ns.InnerPrefixes.PresenceBM != nil && idx_r128(ns.InnerPrefixes.PresenceBM.Words, ns.InnerPrefixes.PresenceBM.RankIndex))
+//@     && (ns.InnerPrefixes.EltCnt > 0 && ns.InnerPrefixes.PositionBM != nil ==> sel_indexed(ns.InnerPrefixes.PositionBM.Words, ns.InnerPrefixes.PositionBM.SelectIndex, ns.InnerPrefixes.PositionBM.RankIndex))
+//@     && (ns.LeafPrefixes != nil ==> ns.LeafPrefixes.PresenceBM != nil && idx_r64(ns.LeafPrefixes.PresenceBM.Words, ns.LeafPrefixes.PresenceBM.RankIndex)
+//@           && ns.LeafPrefixes.PositionBM != nil && sel_indexed(ns.LeafPrefixes.PositionBM.Words, ns.LeafPrefixes.PositionBM.SelectIndex, ns.LeafPrefixes.PositionBM.RankIndex))
+
+//@ func lemmaShapeIsPartOfWf
+//@   property C01 C08
+//@   requires st != nil && st.inner != nil && st.inner.NodeTypeBM != nil && wf_core(st) && wf_iprefix(st) && wf_lprefix(st)
+//@   ensures wf_shape(st.inner)
+
+// build: the SHAPE of the Slim it returns — the part of wf(st) that does not depend on which keys were added: table sizes,
+// which bitmaps exist and that each carries the rank / select index the query side uses on it, the fixed-size step
+// array when inner prefixes are off, no leaf-prefix array unless asked for, no short node among the 257-bit nodes.
+// Claimed: postconditions only (partial correctness; the preconditions of the callees inside build — e.g. that the
+// creator's index lists are ascending — are not claimed and therefore assumed, see evidence "not claimed").
+//@ func sortedBMCounts
+//@   property C08
+//@   assume-dep ranges over maps and sorts with a closure (outside the subset): reads the count maps, writes only memory it allocates (its frame is decided by framecheck for C20); nothing is assumed about the contents of its result; the comparator is under contract separately
+//@   allocates
+//@   ensures fresh(result)
+
+//@ func memIncrOfShortSize
+//@   property C08
+//@   opt kinds=frame
+//@   loop 1 invariant fresh(nbitIth)
+
+//@ func stepToPos
+//@   property C08
+//@   opt kinds=post
+//@   requires len(steps) <= 1000000000
+//@   loop 1 invariant len(ps) == int(n) + 1 && fresh(ps) && int(n) == len(steps)
+//@   ensures fresh(result) && len(result) == len(steps) + 1
+
+//@ func findMinShortSize
+//@   property C08
+//@   opt kinds=post
+//@   loop 1 invariant 0 <= sz && sz < shortSize && 1 <= shortSize && shortSize <= 11
+//@   ensures 0 <= result0 && result0 <= 10
+
 //@ func (*creator).build
-//@   havoc runs after the last node was added; none of the claimed obligations of newSlim depends on it (bounded-checked through NewSlimTrie)
+//@   property C08
+//@   opt kinds=post
+//@   requires c != nil && c.option != nil && c.option.InnerPrefix != nil && c.option.LeafPrefix != nil
+//@   modifies elems(c.innerBMs), elems(c.innerSizes), maps
+//@   loop 1 invariant ns != nil && fresh(ns) && ns.BigInnerCnt == c.bigCnt && 0 <= ns.ShortSize && ns.ShortSize <= 10
+//@   loop 1 invariant 0 <= short && int(short) <= pow2(int(ns.ShortSize)) && len(ns.ShortTable) == int(short)
+//@   loop 2 invariant ns != nil && fresh(ns) && ns.BigInnerCnt == c.bigCnt && 0 <= ns.ShortSize && ns.ShortSize <= 10 && len(ns.ShortTable) == pow2(int(ns.ShortSize))
+//@   loop 2 invariant c.bigCnt <= innerI
+//@   loop 2 invariant fresh(shortIndex)
+//@   loop 2 invariant len(shortIndex) > 0 ==> shortIndex[0] >= c.bigCnt
+//@   at "ns.ShortBM = newBM(shortIndex, innerCnt" assert ns.ShortBM != nil && idx_r64(ns.ShortBM.Words, ns.ShortBM.RankIndex)
+//@   at "ns.Inners.indexit(" assert ns.ShortBM != nil && idx_r64(ns.ShortBM.Words, ns.ShortBM.RankIndex)
+//@   at "ns.InnerPrefixes.EltCnt = int32(len(c.prefixIndexes))" assert ns.ShortBM != nil && idx_r64(ns.ShortBM.Words, ns.ShortBM.RankIndex)
+//@   ensures result != nil && fresh(result) && result.BigInnerCnt == c.bigCnt
+//@   ensures 0 <= result.ShortSize && result.ShortSize <= 10 && len(result.ShortTable) == pow2(int(result.ShortSize))
+//@   ensures (c.nodeCnt > 0) == (result.NodeTypeBM != nil)
+//@   ensures result.NodeTypeBM != nil ==> idx_r64(result.NodeTypeBM.Words, result.NodeTypeBM.RankIndex)
+//@   ensures result.ShortBM != nil && idx_r64(result.ShortBM.Words, result.ShortBM.RankIndex)
+//@   ensures result.Inners != nil && idx_r128(result.Inners.Words, result.Inners.RankIndex)
+//@   ensures forall(t, 0, int(c.bigCnt), t < 64*len(result.ShortBM.Words) ==> bitat(result.ShortBM.Words, t) == 0)
+//@   ensures result.InnerPrefixes != nil && int(result.InnerPrefixes.EltCnt) == len(c.prefixIndexes)
+//@   ensures result.InnerPrefixes.PresenceBM != nil && idx_r128(result.InnerPrefixes.PresenceBM.Words, result.InnerPrefixes.PresenceBM.RankIndex)
+//@   ensures !*c.option.InnerPrefix ==> result.InnerPrefixes.PositionBM == nil && result.InnerPrefixes.FixedSize == 2 && sameslice(result.InnerPrefixes.Bytes, c.prefix4BitLens)
+//@   ensures *c.option.InnerPrefix ==> result.InnerPrefixes.PositionBM != nil && sel_indexed(result.InnerPrefixes.PositionBM.Words, result.InnerPrefixes.PositionBM.SelectIndex, result.InnerPrefixes.PositionBM.RankIndex) && sameslice(result.InnerPrefixes.Bytes, c.prefixes)
+//@   ensures !*c.option.LeafPrefix ==> result.LeafPrefixes == nil
+//@   ensures *c.option.LeafPrefix ==> result.LeafPrefixes != nil && result.LeafPrefixes.PresenceBM != nil && idx_r64(result.LeafPrefixes.PresenceBM.Words, result.LeafPrefixes.PresenceBM.RankIndex)
+//@   ensures *c.option.LeafPrefix ==> result.LeafPrefixes.PositionBM != nil && sel_indexed(result.LeafPrefixes.PositionBM.Words, result.LeafPrefixes.PositionBM.SelectIndex, result.LeafPrefixes.PositionBM.RankIndex) && sameslice(result.LeafPrefixes.Bytes, c.leafPrefixes)
+
+//@ func selectByIndexes
+//@   property C08
+//@   opt kinds=post,frame
+//@   loop 1 invariant fresh(res)
+//@   ensures fresh(result0)
+
+//@ func newVLenArray
+//@   property C08
+//@   opt kinds=post,frame
+//@   loop 1 invariant fresh(sizes) && fresh(nonEmptyIndexes)
+//@   loop 2 invariant fresh(buf) && vlenArray != nil && fresh(vlenArray) && fresh(sizes) && fresh(nonEmptyIndexes)
+//@   ensures result == nil || fresh(result)
 
 //@ func (*creator).buildLeaves
-//@   havoc runs after the last node was added; none of the claimed obligations of newSlim depends on it (bounded-checked through NewSlimTrie)
+//@   property C08
+//@   opt kinds=post,frame
+//@   requires c != nil
+//@   ensures result == nil || fresh(result)
+//@   ensures !c.withLeaves ==> result == nil
 
 //@ func newSlim
 //@   property C08 C12 C13
-//@   opt kinds=pre(addInner)
+//@   opt kinds=pre(addInner),pre(build),post
+//@   ensures result1 == nil && len(keys) > 0 ==> wf_shape(result0)
 //@   requires opt != nil && opt.InnerPrefix != nil && opt.DedupValue != nil && opt.LeafPrefix != nil
 //@   requires len(keys) <= 100000000 && (bytesValues == nil || len(bytesValues) == len(keys))
 //@   loop 2 invariant c != nil && c.option == opt && opt.InnerPrefix != nil
@@ -757,3 +915,5 @@ func lemmaTypedGettersAgreeOnFound(st *SlimTrie, key string) (bool, bool, bool, 
 //@   ensures st.inner.NodeTypeBM != nil ==> int(st.levels[len(st.levels)-1].inner) == nI(st)
 //@   ensures st.inner.NodeTypeBM != nil ==> st.levels[len(st.levels)-1].leaf == st.levels[len(st.levels)-1].total - st.levels[len(st.levels)-1].inner
 //@   ensures st.inner.NodeTypeBM == nil ==> len(st.levels) == 1 && st.levels[0].total == 0 && st.levels[0].inner == 0 && st.levels[0].leaf == 0
+
+func lemmaShapeIsPartOfWf(st *SlimTrie) {}
